@@ -9,6 +9,7 @@ import Dm.Driver.OpsCmd
 import Dm.Driver.ConvCmd
 import Dm.Driver.VarCmd
 import Dm.Driver.DelCmd
+import Dm.Driver.BytesCmd
 
 /- Line-protocol driver of the Lean model: one request per line, one answer per line. -/
 
@@ -27,6 +28,7 @@ def handle (line : String) : String :=
   | "es" :: args => Dm.ErrCmd.cmdEs args
   | "fs" :: args => Dm.FsCmd.cmdFs args
   | "dt" :: args => Dm.DtCmd.cmdDt args
+  | "bc" :: args => Dm.BytesCmd.cmdBc args
   | _ => "bad-op"
 
 partial def loop (h : IO.FS.Stream) (out : IO.FS.Stream) : IO Unit := do
